@@ -54,7 +54,7 @@ def specs_of(module_name: str) -> List[Spec]:
     out = []
     for v in list(vars(mod).values()):
         s = getattr(v, "__verif__", None)
-        if isinstance(s, Spec) and s.fn.__module__ == mod.__name__:
+        if isinstance(s, Spec) and s.fn.__module__ == mod.__name__ and s not in out:
             out.append(s)
     if hasattr(mod, "generated_specs"):
         out.extend(mod.generated_specs())
@@ -64,7 +64,7 @@ def specs_of(module_name: str) -> List[Spec]:
 def concrete_eval(spec: Spec, kwargs: Dict[str, Any], extra_pre: Sequence[str] = ()):
     """Run a harness concretely.  Returns (status, detail) with status in
     {'pre_failed', 'ok', 'post_false', 'raised'}."""
-    g = dict(spec.fn.__globals__)
+    g = dict(getattr(spec.fn, "__verif_ns__", None) or spec.fn.__globals__)
     for p in tuple(spec.pre) + tuple(extra_pre):
         try:
             if not eval(p, {**g, **kwargs}):
@@ -87,3 +87,37 @@ def concrete_eval(spec: Spec, kwargs: Dict[str, Any], extra_pre: Sequence[str] =
     if ok:
         return "ok", repr(ret)[:300]
     return "post_false", repr(ret)[:600]
+
+
+def shard(base, param, values, labels, ns, quick=None):
+    """One obligation per concrete value of a selector parameter (run in parallel); the base function's other
+    parameters stay symbolic.  `ns` is the harness module's globals(); the base loses its own obligation."""
+    import inspect
+    import re
+    spec = base.__verif__
+    sig = inspect.signature(base)
+    newsig = sig.replace(parameters=[p for n, p in sig.parameters.items() if n != param])
+    out = []
+    for value, label in zip(values, labels):
+        def mk(value):
+            def w(*a, **kw):
+                b = newsig.bind(*a, **kw)
+                return base(**{param: value}, **b.arguments)
+            return w
+        w = mk(value)
+        w.__signature__ = newsig
+        w.__annotations__ = {n: p.annotation for n, p in newsig.parameters.items()}
+        w.__name__ = w.__qualname__ = f"{base.__name__}__{label}"
+        w.__module__ = base.__module__
+        w.__globals__.update({})  # noqa (closure globals are vlib.harness; conditions use spec.ns below)
+        pre = [f"(lambda {param}: {p})({value!r})" if re.search(rf"\b{param}\b", p) else p for p in spec.pre]
+        tiers = spec.tiers if (quick is None or value in quick) else ("thorough",)
+        w.__verif__ = Spec(fn=w, pre=tuple(pre), post=spec.post, raises=spec.raises, timeout=spec.timeout,
+                           thorough_timeout=spec.thorough_timeout, tiers=tiers, twin=spec.twin,
+                           note=f"[{param}={label}] " + spec.note, covers=spec.covers,
+                           per_path_timeout=spec.per_path_timeout)
+        w.__verif_ns__ = ns
+        ns[w.__name__] = w
+        out.append(w)
+    del base.__verif__
+    return out
